@@ -69,7 +69,9 @@ def project(case, events, cfg="now"):
         except (IndexError, ValueError, KeyError):
             P.problems.append("malformed trace line (the run was cut short?): " + e.raw)
     P.nthreads = nxt[0]
-    lines[0] = "begin %d %s %s" % (P.nthreads, P.default_ss or "131072", "now" if cfg == "oldinit" else cfg)
+    P.forced_pf = params.get("parentfirst", "0").strip() not in ("", "0")
+    P.gcf = params.get("gchildfirst", params.get("envchildfirst", "1")).strip() or "1"
+    lines[0] = "begin %d %s %s %s" % (P.nthreads, P.default_ss or "131072", "now" if cfg == "oldinit" else cfg, P.gcf)
     lines.append("end"); src.append(None)
     return P
 
@@ -90,17 +92,19 @@ def _project_event(P, pos, e, cur, nxt, stack, pending_exit, retval, last_alloc,
                 cur[T] = c
                 P.tag[c] = T
                 fl = op[2:]
-                ss = [x for x in fl if x.startswith("ss=")]
+                ss = [x for x in fl if x.startswith(("ss=", "gs=", "stk="))]
                 use_attr = any(x in fl for x in ("pf", "cf", "det", "attr")) or ss or params.get("parentfirst", "0") != "0"
                 spec = "none"
                 if use_attr:
                     spec = "attr"
                     if "pf" in fl or (params.get("parentfirst", "0") != "0" and "cf" not in fl):
                         spec += ":pf"
+                    if "cf" in fl:
+                        spec += ":cf"
                     if "det" in fl:
                         spec += ":det"
-                    if ss:
-                        spec += ":" + ss[0]
+                    for x in ss:
+                        spec += ":" + x
                     if cfg == "oldinit":
                         spec += ":oldinit"
                 P.flags[c] = fl
@@ -145,7 +149,7 @@ def _project_event(P, pos, e, cur, nxt, stack, pending_exit, retval, last_alloc,
                     P.stack_ids[c] = e.words[1]
                     P.stack_cls[c] = e.words[2]
                     P.led.append((pos, "alloc.stack", c, e.words[1]))
-                    if "attr" in P.flags.get(c, []) and not any(x.startswith("ss=") for x in P.flags[c]) and P.default_ss is None:
+                    if "attr" in P.flags.get(c, []) and not any(x.startswith(("ss=", "stk=")) for x in P.flags[c]) and P.default_ss is None:
                         P.default_ss = e.words[2]
                     lines.append("led alloc.stack %d %s" % (c, e.words[2])); src.append(e)
             elif eid == "free.desc":
